@@ -13,9 +13,9 @@
 (* After the settle loop ("done") the state must be Quiescent.             *)
 (*                                                                         *)
 (* mode "loose" (generation bumps / restarts): the projection-level core   *)
-(* only - per connection generation monotone prefixes, memory within the   *)
-(* limit, every delivery was sent and happens at most once, memory 0 at    *)
-(* the end.                                                                *)
+(* only - per connection object monotone prefixes, memory within the limit *)
+(* and equal to what the live connections hold (so a reset released        *)
+(* everything), every delivery was sent and happens at most once.          *)
 (*                                                                         *)
 (* "sum" events are state independent summaries of scenarios whose full    *)
 (* trace was not recorded.  Traces are concatenated; "reset" starts one.   *)
@@ -36,7 +36,7 @@ tvars == <<vars, l, mode, sent, dset, lp>>
 TraceChunkCounts(size) == 1 .. 64
 ToSet(s) == {s[j] : j \in 1 .. Len(s)}
 Ends == {e \in Transports \X Transports : e[1] # e[2]}
-NoProj == [g |-> -1, oP |-> 0, oN |-> 0, iP |-> 0, iN |-> 0, kP |-> 0]
+NoProj == [c |-> 0, g |-> 0, oP |-> 0, oN |-> 0, iP |-> 0, iN |-> 0, kP |-> 0]
 
 TInit ==
   /\ Init /\ l = 1 /\ mode = "strict" /\ sent = {} /\ dset = {}
@@ -129,6 +129,9 @@ SDone(e) ==
   /\ \A c \in Conns : Len(dlv[c]) = Cardinality({m \in sent : m.src = c[1] /\ m.dst = c[2]})
   /\ UNCHANGED <<vars, sent>>
 
+\* the strict core of the specification holds in every state of a strict trace
+CoreHolds == Core /\ NetOK /\ DeliveredOK /\ MemOK
+
 Strict(e) ==
   /\ mode = "strict" /\ Keep
   /\ \/ e.op = "n" /\ SNew(e) /\ ProjOK(e.t, e)' /\ CountersOK(e)'
@@ -143,25 +146,36 @@ Strict(e) ==
      \/ e.op \in {"t", "x"} /\ UNCHANGED <<vars, sent>> /\ ProjOK(e.t, e) /\ CountersOK(e)
      \/ e.op = "settle" /\ Settle /\ UNCHANGED sent
      \/ e.op = "done" /\ SDone(e)
+  /\ CoreHolds'
 
 ---------------------------------------------------------------------------
-(* loose mode: projection-level core *)
+(* loose mode: projection-level core.  A connection object is identified   *)
+(* by its incarnation number c (a restart replaces the object).            *)
 LooseConn(t, cs) ==
   LET prev == lp[<<t, cs.p>>] IN
-  /\ cs.g >= prev.g
-  /\ cs.oP <= cs.oN /\ cs.iP <= cs.iN /\ cs.kP <= cs.iP
-  /\ cs.g = prev.g => /\ cs.oP >= prev.oP /\ cs.oN >= prev.oN /\ cs.iP >= prev.iP
+  /\ cs.c >= prev.c
+  /\ cs.oP <= cs.oN /\ cs.iP <= cs.iN /\ cs.kP <= cs.iP /\ cs.beg <= cs.tot
+  /\ cs.c = prev.c => /\ cs.g = prev.g
+                      /\ cs.oP >= prev.oP /\ cs.oN >= prev.oN /\ cs.iP >= prev.iP
                       /\ cs.iN >= prev.iN /\ cs.kP >= prev.kP
+  /\ cs.c # prev.c => cs.g >= prev.g
+
+RECURSIVE HeldLogged(_, _)
+HeldLogged(cs, j) == IF j > Len(cs) THEN 0 ELSE (cs[j].tot - cs[j].beg) + HeldLogged(cs, j + 1)
+
+\* memory within the limit and fully accounted for by the live connections:
+\* whatever a reset connection held must have been released
+LooseMem(e) == e.mem >= 0 /\ e.mem <= MemLimit /\ e.mem = HeldLogged(e.cs, 1)
 
 LooseProj(t, e) ==
-  /\ e.mem >= 0 /\ e.mem <= MemLimit
+  /\ LooseMem(e)
   /\ \A j \in 1 .. Len(e.cs) : e.cs[j].p \in Peers(t) /\ LooseConn(t, e.cs[j])
   /\ e.de <= e.al
 
 LpAfter(t, e) ==
   [x \in Ends |-> IF x[1] = t /\ \E j \in 1 .. Len(e.cs) : e.cs[j].p = x[2]
                   THEN LET cs == e.cs[CHOOSE j \in 1 .. Len(e.cs) : e.cs[j].p = x[2]] IN
-                       [g |-> cs.g, oP |-> cs.oP, oN |-> cs.oN, iP |-> cs.iP, iN |-> cs.iN, kP |-> cs.kP]
+                       [c |-> cs.c, g |-> cs.g, oP |-> cs.oP, oN |-> cs.oN, iP |-> cs.iP, iN |-> cs.iN, kP |-> cs.kP]
                   ELSE lp[x]]
 
 Loose(e) ==
@@ -180,7 +194,7 @@ Loose(e) ==
            ELSE UNCHANGED dset
      \/ /\ e.op = "settle" /\ UNCHANGED <<sent, dset, lp>>
      \/ /\ e.op = "done" /\ e.settle = "ok"
-        /\ \A j \in 1 .. Len(e.ts) : e.ts[j].mem = 0 /\ e.ts[j].wq = <<>>
+        /\ \A j \in 1 .. Len(e.ts) : LooseMem(e.ts[j]) /\ e.ts[j].wq = <<>>
         /\ e.ndlv = Cardinality(dset) /\ e.ndlv <= e.nsent /\ e.de <= e.al
         /\ UNCHANGED <<sent, dset, lp>>
 
@@ -195,8 +209,9 @@ SumEndOK(ts, a, b) ==    \* both ends of connection a -> b in the final projecti
 Summary(e) ==
   /\ e.op = "sum"
   /\ e.settle = "ok"
-  /\ \A j \in 1 .. Len(e.ts) : e.ts[j].mem = 0 /\ e.ts[j].wq = <<>>
+  /\ \A j \in 1 .. Len(e.ts) : LooseMem(e.ts[j]) /\ e.ts[j].wq = <<>>
   /\ e.restarts = 0 =>
+       /\ \A j \in 1 .. Len(e.ts) : e.ts[j].mem = 0
        /\ e.al = e.de
        /\ ToSet(e.sent) = ToSet(e.dlv) /\ Len(e.sent) = Len(e.dlv)
        /\ Cardinality(ToSet(e.dlv)) = Len(e.dlv)
@@ -227,9 +242,6 @@ TNext ==
   /\ \E i \in {l} : LET e == Trace[i] IN Reset(e) \/ Summary(e) \/ Strict(e) \/ Loose(e)
 
 TSpec == TInit /\ [][TNext]_tvars
-
-\* the strict core holds in every state of a strict trace
-TraceCore == mode = "strict" => Core /\ NetOK /\ DeliveredOK /\ MemOK
 
 Accepted ==
   LET d == TLCGet("stats").diameter IN
